@@ -137,6 +137,31 @@ def run_encode(cases, **enc_kw):
     return cases
 
 
+def frame_message(ids, nsub, compressed, mtv, data, centre=0, ltv=0):
+    """A whole edition-4 message around given section-4 data octets, built WITHOUT the implementation's encoder."""
+    sec1 = (22).to_bytes(3, 'big') + bytes([0]) + centre.to_bytes(2, 'big') + (0).to_bytes(2, 'big') + \
+        bytes([0, 0, 0, 0, 0, mtv, ltv]) + (2020).to_bytes(2, 'big') + bytes([1, 1, 0, 0, 0])
+    body3 = bytes([0]) + nsub.to_bytes(2, 'big') + bytes([0xC0 if compressed else 0x80]) + B.pack_descriptors(ids)
+    sec3 = (len(body3) + 3).to_bytes(3, 'big') + body3
+    body4 = bytes([0]) + data
+    sec4 = (len(body4) + 3).to_bytes(3, 'big') + body4
+    total = 8 + len(sec1) + len(sec3) + len(sec4) + 4
+    return b'BUFR' + total.to_bytes(3, 'big') + bytes([4]) + sec1 + sec3 + sec4 + b'7777'
+
+
+def model_message(c):
+    """The message whose data section holds the MODEL encoder's bits (None when the model refuses the values)."""
+    me = c.get('model_enc')
+    if not me or not me.startswith('ok '):
+        return None
+    h, n = me.split(' ')[1].split(':')
+    n = int(n)
+    bits = hex_to_bits(h, n)
+    bits += '0' * (-len(bits) % 8)
+    data = bytes(int(bits[i:i + 8], 2) for i in range(0, len(bits), 8))
+    return frame_message(c['ids'], c['nsub'], bool(c['compressed']), c.get('version', 33), data), n
+
+
 def pad_hex(bits_hexn):
     """'<hex>:<n>' -> (hex padded to whole octets with zero bits, n)"""
     h, n = bits_hexn.split(':')
